@@ -144,7 +144,7 @@ def explain_round_trip(*a) -> str:
 
 
 # ---------------------------------------------------------------- JSON text layer (closed: the stdlib codec runs on concrete representatives)
-REPRESENTATIVE_STRINGS = ['', 'a', '"', "'", '\\', '\n', '\t', 'é', '日本', ' ', '{"children":[]}', 'value', 'children', 'a\\"b', '\x00', '</', ' ']
+REPRESENTATIVE_STRINGS = ['', 'a', '"', "'", '\\', '\n', '\t', 'é', '日本', ' ', '{"children":[]}', 'value', 'children', 'a\\"b', '\x00', '</', ' ', 'a\r\nb', '"""x\r\ny"""', '\r', '\u2028']
 
 
 def json_layer_closed() -> bool:
